@@ -55,8 +55,8 @@ type narrowCheck struct {
 	// field whose invariant is being checked inductively)
 	assumeVal func(v ssa.Value) (bigIval, bool)
 	memo      map[ssa.Value]*bigIval
-	issues []string
-	nConv  int
+	issues    []string
+	nConv     int
 }
 
 // rng computes the exact mathematical range of v; every operation whose
